@@ -14,17 +14,19 @@ from ..common import Report, digest  # noqa: E402
 PROP = "C11"
 
 GLOBALS = [("collections", "OrderedDict"), ("collections", "Counter"), ("vp_sink", "hit"), ("_codecs", "encode"),
-           ("vp_objs", "Plain"), ("collections.abc", "Mapping")]
+           ("vp_objs", "Plain"), ("vp_objs", "Slotted"), ("collections.abc", "Mapping")]
 BASE = {("collections", "OrderedDict"), ("_codecs", "encode")}
 ADDS = {
     "none": (),
     "Counter": ("collections.Counter",),
     "sink": ("vp_sink.hit",),
     "both": ("collections.Counter", "vp_sink.hit"),
-    "newmod2": ("vp_objs.Plain",),
+    "newmod2": ("vp_objs.Plain", "vp_objs.Slotted"),  # two names in one module that the built-in list does not have
     "dotted-module": ("collections.abc.Mapping",),  # module with a dot: only the last component is the name
 }
-OPS = tuple(f"activate({a})" for a in ADDS) + ("deactivate",) + tuple(f"instance({a})" for a in ADDS)
+# "probe": loads of every probe global through the pickle module, refused ones included, as part of the history (a load
+# that fails half-way is where per-load bookkeeping goes wrong)
+OPS = tuple(f"activate({a})" for a in ADDS) + ("deactivate", "probe") + tuple(f"instance({a})" for a in ADDS)
 
 _PRISTINE = None
 
@@ -97,6 +99,10 @@ class Allow(e2.System):
             for g in GLOBALS:
                 res[g] = outcome(lambda g=g: ml.FicklingMLUnpickler(io.BytesIO(probe_bytes(g)), also_allow=list(ADDS[arg]) or None).load())
             obs = ("instance", ADDS[arg], res)
+        elif name == "probe":
+            for g in GLOBALS:
+                outcome(lambda g=g: pickle.loads(probe_bytes(g)))
+                outcome(lambda g=g: pickle.load(io.BytesIO(probe_bytes(g))))
         return model, obs
 
     def check(self, ctx, model, op, obs):
